@@ -332,6 +332,7 @@ Theorem T07h_estimate_skeleton :
    "xstar, optimization_messages, convergence = output";
    "self.convergence = convergence";
    "f_g_h_b: BiogemeFunctionOutput = self.calculate_likelihood_and_derivatives(xstar, scaled=False, hessian=True, bhhh=True)";
+   "if run_bootstrap: <bootstrap block>";
    "raw_results = res.RawResults(self, xstar, f_g_h_b, bootstrap=self.bootstrap_results)";
    "r = res.bioResults(raw_results, identification_threshold=self.identification_threshold)";
    "estimated_betas = r.get_beta_values()";
@@ -348,3 +349,55 @@ Theorem T07h_raw_results_fields :
      ("H", "f_g_h_b.hessian"); ("bhhh", "f_g_h_b.bhhh"); ("convergence", "the_model.convergence")]%string = true.
 Proof. exact raw_results_fields_ok. Qed.
 Print Assumptions T07h_raw_results_fields.
+
+(* ---- T07i. estimate(run_bootstrap=True): with optimize() as read from the source on this run (it records nothing on the
+        object), the reported results -- estimates, logLike, g, H, bhhh AND the convergence status -- are those of the
+        estimation on the full sample, whatever the re-estimations return; the bootstrap rows are the solutions of the
+        re-estimations started at the estimates (bounds handed on as for the estimation). *)
+Theorem T07i_bootstrap_keeps_main :
+  forall L gradL hessL bhhhL junk_h junk_b N P ext alg p si saved samples s r boots s',
+  est_boot L gradL hessL bhhhL junk_h junk_b N P ext optimize_attribute_stores alg p si saved samples s = Some (r, boots, s') ->
+  est L gradL hessL bhhhL junk_h junk_b N P ext alg p si saved s = Some (r, s') /\
+  exists rt fb, routine alg = Some (rt, fb) /\
+    boots = map (fun o => solution (ext rt p o (r_betaValues r) (if fb then Some (r_bounds r) else None))) samples.
+Proof. exact bootstrap_keeps_main. Qed.
+Print Assumptions T07i_bootstrap_keeps_main.
+
+Theorem T07i_optimize_records_nothing : optimize_attribute_stores = [].
+Proof. exact optimize_records_nothing. Qed.
+Print Assumptions T07i_optimize_records_nothing.
+
+Theorem T07i_bootstrap_skeleton :
+  bootstrap_skeleton = ["for b in range(self.bootstrap_samples):"; "x_br, _, _ = self.optimize(xstar)";
+                        "self.bootstrap_results[b] = x_br"]%string.
+Proof. exact bootstrap_skeleton_ok. Qed.
+Print Assumptions T07i_bootstrap_skeleton.
+
+(* why it matters (and non-vacuity): were the status recorded by optimize(), an unconverged estimation followed by a
+   converged re-estimation would be reported as converged *)
+Theorem T07i_bootstrap_overwrites_refuted :
+  exists (ext : string -> unit -> objective -> vec -> option (list bound) -> opt_result) s sample r boots s' r0 s0,
+    est (fun _ => 0) (fun _ => []) (fun _ => []) (fun _ => []) (fun _ => []) (fun _ => []) 1 unit ext
+        "simple_bounds" tt false None s = Some (r0, s0) /\
+    est_boot (fun _ => 0) (fun _ => []) (fun _ => []) (fun _ => []) (fun _ => []) (fun _ => []) 1 unit ext
+        ["self.convergence"%string] "simple_bounds" tt false None [sample] s = Some (r, boots, s') /\
+    r_convergence r0 = false /\ r_convergence r = true.
+Proof. exact bootstrap_overwrites_refuted. Qed.
+Print Assumptions T07i_bootstrap_overwrites_refuted.
+
+(* ---- T07j. the matrices a results object holds are not touched by later evaluations of the same BIOGEME object: with the
+        allocation read from the source on this run (a new array at every call), the array written by one evaluation still
+        holds its matrix after any sequence of further evaluations; with a shared array it would not. *)
+Theorem T07j_stored_matrices_stable : forall st m ms,
+  read (evals derivative_buffers_fresh (fst (eval_into derivative_buffers_fresh st m)) ms)
+       (snd (eval_into derivative_buffers_fresh st m)) = m.
+Proof. exact generated_buffers_stable. Qed.
+Print Assumptions T07j_stored_matrices_stable.
+
+Theorem T07j_shared_buffer_refuted : exists st m ms,
+  read (evals false (fst (eval_into false st m)) ms) (snd (eval_into false st m)) <> m.
+Proof. exact shared_buffer_refuted. Qed.
+Print Assumptions T07j_shared_buffer_refuted.
+
+Example T07j_example : read (evals true (fst (eval_into true [] [[1]])) [[[2]]; [[3]]]) 0 = [[1]].
+Proof. reflexivity. Qed.
